@@ -1753,6 +1753,12 @@ def einsum(subscripts: str, *operands: Array,
                                            index_to_axis_length))
         access_descriptors.append(access_descriptor)
 
+    for idx, descr in index_to_descr.items():
+        if (isinstance(descr, EinsumElementwiseAxis)
+                and idx not in index_to_axis_length):
+            raise ValueError(f"Output index '{idx}' does not appear in any"
+                             " input subscript.")
+
     # {{{ process index_to_redn_descr
 
     redn_axis_to_redn_descr = {}
